@@ -196,8 +196,13 @@ func genArgFault(r *Rng, d *DeclSpec, p *Plan, twinCalls []Call) (f ArgFault, ok
 		if !strings.HasPrefix(t.Text, "--") && len(t.Text) != 2 {
 			return f, false // multi-byte short names do not split at '='
 		}
-		f.Text = t.Text + "=" + r.Pick([]string{"x", "true", "1", ""})
+		arg := r.Pick([]string{"x", "true", "1", ""})
+		f.Text = t.Text + "=" + arg
 		f.Expect = "no argument for bool"
+		if arg == "x" {
+			// were flags to accept boolean arguments, "x" would be an unconvertible value
+			f.Expect = "no argument for bool|marshal"
+		}
 		return f, true
 	case "delete-required":
 		if len(p.Required) == 0 {
